@@ -331,6 +331,12 @@ pub const INJECTORS: &[Inj] = &[
                     "20150830T123600Zx",
                     "Mon, 09 Sep 2011 23:36:00 GMT",
                     "20150830T123600+2500",
+                    // decimal digits of other scripts: digits to a Unicode-aware reader, never to this format
+                    "\u{662}\u{660}\u{661}\u{665}0830T123600Z",
+                    "\u{ff12}\u{ff10}\u{ff11}\u{ff15}0830T123600Z",
+                    "2015\u{966}\u{96e}30T123600Z",
+                    "20150830T1236\u{6f0}\u{6f0}Z",
+                    "\u{b2}0150830T123600Z",
                 ])
                 .to_string(),
             );
